@@ -75,3 +75,10 @@ impl<'a, 'b, 'c> BatchController<'a, 'b, 'c> for RvCtl {
         dispatcher.dispatch(world);
     }
 }
+
+/// a system that does nothing (fills a narrow batch)
+pub struct Noop;
+impl<'a> System<'a> for Noop {
+    type SystemData = ();
+    fn run(&mut self, _: ()) {}
+}
